@@ -824,10 +824,11 @@ def run_sched(ctx, meta, modules, required, flavor, allow_extra_axioms=None):
     rng = vlib.Rng(ctx.seed * 3 + {'C01': 0, 'C02': 1, 'C03': 2}[flavor])
     from props import pure_common as pc
     pc.regen_units(ctx, ['Util'])                       # cyclecmp32 is tie T: regenerated from util.c on every run
-    if allow_extra_axioms:
-        ctx.prove(modules, required, allow_extra_axioms=allow_extra_axioms)
-    else:
-        ctx.prove(modules, required)
+    # the tie lemma for the regenerated cyclecmp32 closes by rfl on the pinned source and by bv_decide after an equivalent
+    # rewrite of util.c; in the second case every scheduler theorem inherits that one bit-blasting axiom
+    tie_ax = lambda thm, ax: ax.startswith('Librfn.Sched.L.cyclecmp32_tie._native.bv_decide.ax_')
+    extra = (lambda t, a: tie_ax(t, a) or allow_extra_axioms(t, a)) if allow_extra_axioms else tie_ax
+    ctx.prove(modules, required, allow_extra_axioms=extra)
     exe = harness(ctx)
     stats = {}
     agreed = 0
